@@ -107,7 +107,8 @@ Lemma lv_unfold : forall e,
          end
      | EMeth recv m args kws =>
          match kws with
-         | [] => a <- eval_list (fun x => sub (lv x)) args ;; call_method recv m a
+         | [] => if is_dunder m then Exc KValue
+                 else a <- eval_list (fun x => sub (lv x)) args ;; call_method recv m a
          | _ => Exc KValue
          end
      | ECall f args kws =>
@@ -143,7 +144,8 @@ Lemma lv_known_body : forall e v, lv e = LKnown v ->
          end
      | EMeth recv m args kws =>
          match kws with
-         | [] => a <- eval_list (fun x => sub (lv x)) args ;; call_method recv m a
+         | [] => if is_dunder m then Exc KValue
+                 else a <- eval_list (fun x => sub (lv x)) args ;; call_method recv m a
          | _ => Exc KValue
          end
      | ECall f args kws =>
@@ -301,6 +303,7 @@ Proof.
     + eapply Forall_impl; [| exact IHargs]. intros x Hx v Hv. apply sub_val in Hv. exact (Hx v Hv).
   - (* EMeth *)
     destruct kws as [| k kws']; [| discriminate].
+    destruct (is_dunder m); [discriminate|].
     apply bind_val in H. destruct H as [a [Ha H]].
     cbn [eval]. rewrite (call_method_known _ _ _ _ H).
     rewrite (eval_list_mono (fun x => sub (lv x)) (eval env) args a); [| | exact Ha].
@@ -784,7 +787,7 @@ Proof.
   - destruct rest as [| p rest']; [safe_tac|]. apply cmp_all_safe; [exact IHa | exact IHrest].
   - destruct kws; [| apply leval_safe]. destruct (mem_str f PURE_BUILTIN_FUNCTIONS); [| apply leval_safe].
     apply bind_safe; [apply eval_list_safe; exact IHargs | intros; apply call_builtin_safe].
-  - destruct kws; [| safe_tac].
+  - destruct kws; [| safe_tac]. destruct (is_dunder m); [safe_tac|].
     apply bind_safe; [apply eval_list_safe; exact IHargs | intros; apply call_method_safe].
 Qed.
 
@@ -795,4 +798,12 @@ Proof.
   (* wrap only produces LCrash for a class that is not an Exception *)
   rewrite lv_unfold in H. destruct (if hse BUILTIN_FUNCTIONS e then Exc KValue else _) as [a | k' |]; cbn [wrap] in H; try discriminate.
   destruct (is_exception k') eqn:E; [discriminate|]. inversion H. subst. rewrite E in Hs. discriminate.
+Qed.
+
+(* special methods of constants ('abc'.__hash__() depends on the hash seed) are never evaluated *)
+Theorem dunder_unknown : forall r m args kws, is_dunder m = true -> lv (EMeth r m args kws) = LUnknown.
+Proof.
+  intros r m args kws H. rewrite lv_unfold.
+  destruct (hse BUILTIN_FUNCTIONS (EMeth r m args kws)); [reflexivity|].
+  destruct kws; [rewrite H|]; reflexivity.
 Qed.
